@@ -77,6 +77,7 @@ def main(argv=None):
     a.add_argument("--tier", default="quick")
     st = sub.add_parser("selftest")
     st.add_argument("--props", default="")
+    st.add_argument("--ids", default="", help="comma separated substrings of corpus entry ids")
     st.add_argument("--jobs", type=int, default=16)
     st.add_argument("-v", action="store_true")
     ns = ap.parse_args(argv)
